@@ -1,33 +1,3 @@
 package main
 
-import (
-	"fmt"
-	"math"
-
-	"github.com/trajectoryjp/spatial_id_go/v4/common/object"
-	"github.com/trajectoryjp/spatial_id_go/v4/shape"
-)
-
-func main() {
-	lons := []float64{-180, -179.9999999999, -90.5, -1e-9, 0, 1e-9, 45.123456789, 139.7, 179.9999999999, 180}
-	lats := []float64{-85.0511287798, -85.05, -60.25, -1e-9, 0, 1e-9, 35.6, 66.5, 85.05, 85.0511287798}
-	for _, alt := range []float64{0, -1e-300, 12.345} {
-		worstF, worstB := 0.0, 0.0
-		for _, lon := range lons {
-			for _, lat := range lats {
-				p, _ := object.NewPoint(lon, lat, alt)
-				pr, _ := shape.ConvertPointListToProjectedPointList([]*object.Point{p}, 3857)
-				wx := 6378137.0 * p.Lon() * math.Pi / 180
-				wy := 6378137.0 * math.Asinh(math.Tan(p.Lat()*math.Pi/180))
-				worstF = math.Max(worstF, math.Max(math.Abs(pr[0].X-wx), math.Abs(pr[0].Y-wy)))
-				back, _ := shape.ConvertProjectedPointListToPointList(pr, 3857)
-				db := math.Abs(back[0].Lat() - p.Lat())
-				if db > worstB {
-					worstB = db
-					fmt.Println("   ", alt, lon, lat, "back", back[0].Lat(), back[0].Alt())
-				}
-			}
-		}
-		fmt.Println(alt, worstF, worstB)
-	}
-}
+func main() {}
